@@ -1655,3 +1655,39 @@ fn test_poly_prepare0() {
         }
     }
 }
+
+/// Access to private items for the verification harness.
+#[cfg(yamaquasi_verif)]
+pub mod verif_access {
+    use super::*;
+
+    /// (a, b, c, is_type2, index in the Gray code walk) of a polynomial.
+    pub fn poly_coeffs(p: &Poly) -> (I256, I256, I256, bool, usize) {
+        (p.a, p.b, p.c, p.kind == PolyType::Type2, p.idx)
+    }
+    pub fn poly_eval(p: &Poly, x: i64) -> (I256, I256) {
+        p.eval(x)
+    }
+    /// The per-prime root tables (positions relative to the start of the interval).
+    pub fn poly_roots(p: &Poly) -> (Vec<u32>, Vec<u32>) {
+        (p.r1p.to_vec(), p.r2p.to_vec())
+    }
+    pub fn a_value(a: &A) -> Uint {
+        a.a
+    }
+    pub fn a_primes(a: &A) -> Vec<u64> {
+        a.factors.iter().map(|f| f.p).collect()
+    }
+    /// (factor base size, factors of A, number of A values, interval size,
+    /// large prime multiplier, double large prime multiplier)
+    pub fn params(n: &Uint, use_double: bool) -> (u32, u32, usize, u32, u64, u64) {
+        (
+            fb_size(n, use_double),
+            nfactors(n),
+            a_value_count(n),
+            interval_size(n, use_double),
+            large_prime_factor(n),
+            double_large_factor(n),
+        )
+    }
+}
